@@ -229,7 +229,19 @@ func ruleR06b(c *Check) {
 			continue // images are compared by the docker daemon's image id, not by a content hash grog computes
 		}
 		fname := c.P.FuncName(fn)
-		reads := sitesReaching(c, fn, casLoad)
+		// a read that restores content: the blob stream (Cas.Load), or a byte load inside a call that also
+		// creates files. Loading the record of a directory tree (LoadBytes alone) restores nothing: a path
+		// that only does that and returns has skipped the restore.
+		var reads []ssa.CallInstruction
+		creators := map[*ssa.Function]bool{}
+		for _, cs := range c.G.CallsTo("os.Create", "os.OpenFile", "os.WriteFile", "os.Symlink") {
+			creators[cs.Parent()] = true
+		}
+		for _, rs := range sitesReaching(c, fn, casLoad) {
+			if len(sitesReaching1(c, rs, fnSet(c.P.Func("caching", "Cas", "Load")))) > 0 || len(sitesReaching1(c, rs, creators)) > 0 {
+				reads = append(reads, rs)
+			}
+		}
 		isRead := func(in ssa.Instruction) bool {
 			for _, r := range reads {
 				if in == ssa.Instruction(r) {
@@ -279,6 +291,21 @@ func ruleR06b(c *Check) {
 				"the restore can be skipped without the local content having been verified against the recorded digest: stale, truncated or modified outputs would be left in place", c.P.InstrPos(r))
 		}
 	}
+}
+
+// sitesReaching1: the site itself when its (transitive) first-party callees include a function of the set.
+func sitesReaching1(c *Check, s ssa.CallInstruction, set map[*ssa.Function]bool) []ssa.CallInstruction {
+	callees := c.G.CalleesOf(s)
+	if len(callees) == 0 {
+		return nil
+	}
+	reach := c.G.ReachableFuncs(callees, nil)
+	for f := range set {
+		if f != nil && reach[f] {
+			return []ssa.CallInstruction{s}
+		}
+	}
+	return nil
 }
 
 func calleeInSet(c *Check, s ssa.CallInstruction, set map[*ssa.Function]bool) bool {
